@@ -34,7 +34,8 @@ LEVEL = "model_checking"
 RULE = (
     "direct: every (site, start instant, step, k) of the announced lattice - sites = lat x lon x alt alphabet (+ one "
     "seed-placed site per altitude), start instants = every second of one minute on each listed date (23:59:xx of a "
-    "leap-second eve / year end, and a seed-chosen minute of a seed-chosen day), k*step elapsed incl. k=0 (the state "
+    "leap-second eve / year end, and a seed-chosen minute of a seed-chosen day; thorough: full product, quick: the "
+    "union of [all sites x 8 seconds] and [9 corner sites x all 60 seconds]), k*step elapsed incl. k=0 (the state "
     "the agent is built with), crossing midnight, the year end and several days - is driven through the real "
     "ScenarioConfig -> ScenarioClock -> dynamicsFactory -> Terrestrial -> SensingAgent.fromConfig -> "
     "PropagateRegistration/asyncPropagate path and the reported state is compared with the harness' own geodetic->ECEF "
@@ -80,9 +81,10 @@ LATS = [-89.9, -45.0, 0.0, 0.001, 45.0, 70.37, 89.9]
 LONS = [-180.0, -90.0, 0.0, 31.13, 179.99]
 ALTS = [0.0, 0.063, 4.0]
 STEPS_Q = [2, 60, 300]
-STEPS_T = [1, 2, 7, 60, 300, 450, 3600]
+STEPS_T = [2, 7, 60, 300, 450, 3600]  # the configuration requires a step > 1 s
 EOP_FIRST = date(2014, 1, 1)
 EOP_LAST = date(2022, 10, 4)
+MAX_ELAPSED_S = 6 * 86400
 
 
 def worker_init():
@@ -310,9 +312,10 @@ def _minutes(tier, seed):
 
 
 def _ks(step):
-    """Elapsed step counts: DESIGN's {0,1,2,288,1000} plus one just over a day and one just over three days."""
+    """Elapsed step counts: DESIGN's {0,1,2,288,1000} plus one just over a day and one just over three days; counts that
+    would take more than 6 days are left out (hour-long steps) so that every seed-chosen start stays inside the EOP table."""
     ks = {0, 1, 2, 288, 1000, 86400 // step + 1, 3 * 86400 // step + 7}
-    return sorted(ks)
+    return sorted(k for k in ks if k * step <= MAX_ELAPSED_S)
 
 
 def _steps(tier):
@@ -333,21 +336,51 @@ def _scenario_cases(tier, seed):
     if tier == "thorough":
         starts += [datetime(2015, 6, 30, 23, 59, 1), datetime(2020, 2, 28, 23, 59, 31), sm + timedelta(seconds=29),
                    _seed_minute(seed, 1) + timedelta(seconds=sec)]
-        plan = {1: 70, 2: 45, 7: 40, 60: 120, 300: 290, 3600: 80}
+        plan = {2: 45, 7: 40, 60: 120, 300: 290, 3600: 80}
     return [(st, step, n) for st in starts for step, n in plan.items()]
 
 
-def items(tier, seed):
+def _heavy_seconds(seed):
+    """Start seconds on which the FULL site lattice is run in the quick tier."""
+    secs = [0, 1, 29, 30, 31, 59]
+    for j in range(60):
+        c = (seed * 17 + 7 + j * 23) % 60
+        if c not in secs:
+            secs.append(c)
+        if len(secs) == 8:
+            break
+    return sorted(secs)
+
+
+def _direct_items(tier, seed):
+    """thorough: full product seconds x sites.  quick: union of two complete lattices - (all sites) x (8 seconds: both
+    ends and the middle of the minute + 2 seed-chosen) and (9 corner sites) x (all 60 seconds)."""
     out = []
-    chunk = 3 if tier == "thorough" else 1
     for minute in _minutes(tier, seed):
         for step in _steps(tier):
-            for s0 in range(0, 60, chunk):
-                out.append(("direct", minute.isoformat(), s0, s0 + chunk, step, seed))
+            if tier == "thorough":
+                for s0 in range(0, 60, 3):
+                    out.append(("direct", minute.isoformat(), list(range(s0, s0 + 3)), step, seed, "all"))
+            else:
+                heavy = _heavy_seconds(seed)
+                for sec in heavy:
+                    out.append(("direct", minute.isoformat(), [sec], step, seed, "all"))
+                light = [sec for sec in range(60) if sec not in heavy]
+                for chunk in fw.chunked(light, 9):
+                    out.append(("direct", minute.isoformat(), chunk, step, seed, "corner"))
+    return out
+
+
+def items(tier, seed):
+    direct = _direct_items(tier, seed)
+    # longest items (day-long scenario runs) early so that the pool drains evenly; item 0 stays a cheap one because the
+    # runner replays it for the determinism self-check
+    out = direct[:1]
+    for st, step, n in sorted(_scenario_cases(tier, seed), key=lambda c: -c[2]):
+        out.append(("scenario", st.isoformat(), step, n, seed))
+    out += direct[1:]
     for minute in _minutes(tier, seed):
         out.append(("propagate", minute.isoformat(), seed))
-    for st, step, n in _scenario_cases(tier, seed):
-        out.append(("scenario", st.isoformat(), step, n, seed))
     for st in (datetime(2016, 12, 31, 23, 59, 37), _seed_minute(seed, 0) + timedelta(seconds=13)):
         for step in (60, 300):
             out.append(("midrun", st.isoformat(), step, seed))
@@ -361,6 +394,8 @@ def bounds(tier, seed):
     return {
         "sites": {"lat_deg": LATS, "lon_deg": LONS, "alt_km": ALTS, "seed_site": _sites(seed)[-1][:2], "count": len(_sites(seed))},
         "start_minutes_every_second": [m.isoformat() for m in _minutes(tier, seed)],
+        "direct_lattice": "all sites x all 60 seconds" if tier == "thorough" else
+        f"all sites x seconds {_heavy_seconds(seed)} + corner sites x all 60 seconds",
         "steps_s": _steps(tier),
         "elapsed_steps_k": {str(s): _ks(s) for s in _steps(tier)},
         "scenario_runs": [(st.isoformat(), step, n) for st, step, n in _scenario_cases(tier, seed)],
@@ -390,36 +425,58 @@ def _real_step(agent):
     reg.processResults(result)
 
 
+def _guard(res, sub, case, item, fn, *args):
+    """Run library code; an exception is a violation of the property (the site has no state), not a harness error."""
+    try:
+        return True, fn(*args)
+    except Exception as exc:  # noqa: BLE001
+        res.case(
+            f"{sub}/error",
+            case,
+            False,
+            signature=f"C11/{sub}/error/{type(exc).__name__}",
+            observed=f"{type(exc).__name__}: {exc}"[:300],
+            expected="no exception",
+            item=item,
+        )
+        return False, None
+
+
 def _crosses_midnight(start, elapsed):
     return (start + timedelta(seconds=elapsed)).date() != start.date()
 
 
 # ------------------------------------------------------------------------------------------------ direct lattice
 def _run_direct(res, item):
-    _, minute_iso, s0, s1, step, seed = item
+    _, minute_iso, secs, step, seed, site_mode = item
     minute = datetime.fromisoformat(minute_iso)
-    sites = _sites(seed)
+    sites = _sites(seed, full=site_mode == "all")
     ks = _ks(step)
-    for sec in range(s0, s1):
+    for sec in secs:
         start = minute + timedelta(seconds=sec)
-        sub_item = ("direct", minute_iso, sec, sec + 1, step, seed)
+        sub_item = ("direct", minute_iso, [sec], step, seed, site_mode)
         worker_init()  # fresh in-memory database: the clock inserts its Epoch rows
         cfg = ScenarioConfig(**_scenario_config(start, step, 2, sites))
         clock = ScenarioClock.fromConfig(cfg.time)
         agents = []
         for sen_cfg, site in zip(cfg.engines[0].sensors, sites):
-            dyn = dynamicsFactory(sen_cfg, cfg.propagation, cfg.geopotential, cfg.perturbations, clock)
-            kind_ok = isinstance(dyn, Terrestrial)
+            case0 = {"lat": site[0], "lon": site[1], "alt": site[2], "start": start.isoformat(), "second": sec, "step": step}
+            ok, dyn = _guard(res, "direct/build", case0, sub_item, dynamicsFactory, sen_cfg, cfg.propagation,
+                             cfg.geopotential, cfg.perturbations, clock)
+            if not ok:
+                continue
             res.case(
                 "direct/factory_kind",
-                {"site": site, "start": start.isoformat()},
-                kind_ok,
+                case0,
+                isinstance(dyn, Terrestrial),
                 signature="C11/direct/factory_kind",
                 observed=type(dyn).__name__,
                 expected="Terrestrial",
                 item=sub_item,
             )
-            agents.append((SensingAgent.fromConfig(sen_cfg, clock, dyn, cfg.propagation), site))
+            ok, agent = _guard(res, "direct/build", case0, sub_item, SensingAgent.fromConfig, sen_cfg, clock, dyn, cfg.propagation)
+            if ok:
+                agents.append((agent, site))
         for k in ks:
             elapsed = k * step
             dt = start + timedelta(seconds=elapsed)
@@ -431,7 +488,8 @@ def _run_direct(res, item):
                     # Terrestrial keeps no memory of the previous state, so the step that ENDS at k*step is driven
                     # from (k-1)*step; consecutive stepping from 0 is covered by the scenario runs
                     agent.time = ScenarioTime((k - 1) * step)
-                    _real_step(agent)
+                    if not _guard(res, "direct", case, sub_item, _real_step, agent)[0]:
+                        continue
                 sub = "direct/initial" if k == 0 else "direct"
                 audit_state(res, sub, case, agent.eci_state, dt, site, sub_item, nontrivial=nontriv, step=step)
                 audit_agent_views(res, sub, case, agent, dt, elapsed, site, sub_item, nontrivial=nontriv)
@@ -444,7 +502,7 @@ def _run_propagate(res, item):
     sites = _sites(seed, full=False)
     secs = sorted({0, 1, 29, 59, 1 + (seed * 17 + 36) % 58})
     pairs = [(0, 60), (60, 120), (0, 120), (7, 13), (13, 86407), (7, 86407), (0, 0.5), (0.5, 86400.25), (86340, 86460),
-             (3599, 3600), (1000000, 1000001), (250000, 259200.0), (59, 61), (61, 61)]
+             (3599, 3600), (1000000, 1000001), (250000, 259200.0), (59, 61)]
     garbage = np.array([1.0, -2.0, 3.0, 0.1, 0.2, -0.3])
     for sec in secs:
         start = minute + timedelta(seconds=sec)
@@ -457,12 +515,16 @@ def _run_propagate(res, item):
                 case = {"lat": site[0], "lon": site[1], "alt": site[2], "start": start.isoformat(), "second": sec,
                         "t0": t0, "t1": t1}
                 prev = memo.get(t0, garbage)  # the state a consecutive caller would pass in (or arbitrary)
-                out = dyn.propagate(ScenarioTime(t0), ScenarioTime(t1), prev)
+                ok, out = _guard(res, "propagate", case, item, dyn.propagate, ScenarioTime(t0), ScenarioTime(t1), prev)
+                if not ok:
+                    continue
                 memo[t1] = out
                 dt = start + timedelta(seconds=t1)
                 nontriv = t0 != 0
                 audit_state(res, "propagate", case, out, dt, site, item, nontrivial=nontriv, step=0)
-                one_call = dyn.propagate(ScenarioTime(0), ScenarioTime(t1), garbage)
+                ok, one_call = _guard(res, "propagate", case, item, dyn.propagate, ScenarioTime(0), ScenarioTime(t1), garbage)
+                if not ok:
+                    continue
                 same = bool(np.array_equal(np.asarray(out), np.asarray(one_call)))
                 res.case(
                     "propagate/same_as_one_call",
@@ -709,21 +771,52 @@ def _run_import(res, item):
                 res.observe(float(agent.time), np.asarray(agent.ecef_state, dtype=float))
 
 
+def _raised_by_library(exc) -> bool:
+    """True iff the innermost harness-or-library frame of the traceback is library code (resonaate package)."""
+    import traceback  # noqa: PLC0415
+
+    for frame in reversed(traceback.extract_tb(exc.__traceback__)):
+        fn = frame.filename.replace("\\", "/")
+        if "/resonaate/" in fn:
+            return True
+        if "/verif/" in fn:
+            return False
+    return False
+
+
+_RUNNERS = {}
+
+
 def run_item(item):
     res = fw.Result()
     kind = item[0]
-    if kind == "direct":
-        _run_direct(res, item)
-    elif kind == "propagate":
-        _run_propagate(res, item)
-    elif kind == "scenario":
-        _run_scenario(res, item)
-    elif kind == "midrun":
-        _run_midrun(res, item)
-    elif kind == "midrun_event":
-        _run_midrun_event(res, item)
-    elif kind == "import":
-        _run_import(res, item)
-    else:
+    runner = _RUNNERS.get(kind)
+    if runner is None:
         raise ValueError(kind)
+    try:
+        runner(res, item)
+    except Exception as exc:  # noqa: BLE001
+        # every input of the lattice is a valid configuration: an exception coming out of the library means a ground
+        # site could not be built / stepped (violation); an exception raised by the harness itself stays a harness error
+        if not _raised_by_library(exc):
+            raise
+        res.case(
+            f"{kind}/error",
+            {"item": list(item)},
+            False,
+            signature=f"C11/{kind}/error/{type(exc).__name__}",
+            observed=f"{type(exc).__name__}: {exc}"[:300],
+            expected="no exception from the library",
+            item=item,
+        )
     return res
+
+
+_RUNNERS.update(
+    direct=_run_direct,
+    propagate=_run_propagate,
+    scenario=_run_scenario,
+    midrun=_run_midrun,
+    midrun_event=_run_midrun_event,
+)
+_RUNNERS["import"] = _run_import
